@@ -60,6 +60,19 @@ M = [
  ("empty-id-fixed", "parsed_packet.rs", "let tid: u16 = rng.random();", "let tid: u16 = 4;", "C17"),
 ]
 
+# Behaviour-preserving (or still-correct) variants: every listed check must stay SILENT on them.
+BENIGN = [
+ ("benign-reworded-void-record", "errors.rs", '#[error("Void record")]', '#[error("This record was deleted")]', "C10 C11 C15 C16"),
+ ("benign-reworded-too-large", "errors.rs", '#[error("Packet too large")]', '#[error("The packet would exceed the size limit")]', "C10 C08"),
+ ("benign-cycle-error-kind", "compress.rs", 'bail!(DSError::InvalidName("Cycle"));', 'bail!(DSError::InvalidPacket("Compression loop"));', "C01 C02"),
+ ("benign-more-suffixes", "compress.rs", "const MAX_SUFFIXES: usize = 32;", "const MAX_SUFFIXES: usize = 64;", "C06 C07 C17"),
+ ("benign-fewer-suffixes", "compress.rs", "const MAX_SUFFIXES: usize = 32;", "const MAX_SUFFIXES: usize = 8;", "C06 C07 C05"),
+ ("benign-shorter-suffix-limit", "compress.rs", "const MAX_SUFFIX_LEN: usize = 127;", "const MAX_SUFFIX_LEN: usize = 64;", "C06 C07"),
+ ("benign-no-compression-of-rdata-mx", "compress.rs", "                let new_rdlen = 2 + Compress::copy_compressed_name(\n                    dict,\n                    compressed,\n                    packet,\n                    offset_rdata + DNS_RR_HEADER_SIZE + 2,\n                )\n                .name_len;", "                let new_rdlen = 2 + Compress::copy_uncompressed_name(\n                    compressed,\n                    packet,\n                    offset_rdata + DNS_RR_HEADER_SIZE + 2,\n                )\n                .name_len;", "C06"),
+ ("benign-qdcount-check-order", "dns_sector.rs", "        if qdcount == 0 {\n            bail!(DSError::InvalidPacket(\n                \"A DNS packet should contain a question\",\n            ));\n        }\n        if qdcount > 1 {", "        if qdcount < 1 {\n            bail!(DSError::InvalidPacket(\n                \"No question\",\n            ));\n        }\n        if qdcount >= 2 {", "C01 C02"),
+ ("benign-empty-packet-capacity", "parsed_packet.rs", "let mut name = Vec::with_capacity(DNS_MAX_HOSTNAME_LEN);\n        let uncompressed_name_result", "let mut name = Vec::with_capacity(64);\n        let uncompressed_name_result", "C04 C08"),
+]
+
 def sh(cmd, **kw):
     return subprocess.run(cmd, shell=True, capture_output=True, text=True, **kw)
 
@@ -90,6 +103,29 @@ def main():
                     print(r.stdout[-600:])
             print(f"RESULT {name}: caught-by {' '.join(caught) if caught else 'NONE'} (ran {checks})")
             rows.append((name, f, checks, 'caught by ' + ' '.join(caught) if caught else 'NOT CAUGHT'))
+        finally:
+            sh('git -C /repo checkout -- .')
+        sys.stdout.flush()
+    for name, f, old, new, checks in BENIGN:
+        if want and not any(w in name for w in want):
+            continue
+        p = R + f
+        s = open(p).read()
+        if s.count(old) != 1:
+            print(f"RESULT {name}: SKIPPED (pattern occurs {s.count(old)} times)"); rows.append((name, f, checks, 'pattern not found')); continue
+        open(p, 'w').write(s.replace(old, new))
+        try:
+            t = sh('cd /repo && cargo test --offline 2>&1 | grep -E "^test result|^error" ')
+            if 'error' in t.stdout or any(int(x) > 0 for x in re.findall(r'(\d+) failed', t.stdout)):
+                print(f"RESULT {name}: SKIPPED (does not build or the existing tests fail)"); rows.append((name, f, checks, 'does not build / tests fail')); continue
+            alarms = []
+            for c in checks.split():
+                r = sh(f'cd /verif && ./check {c} quick')
+                if r.returncode != 0:
+                    alarms.append(c)
+                    print(r.stdout[-800:])
+            print(f"RESULT {name}: {'FALSE ALARM from ' + ' '.join(alarms) if alarms else 'silent (as required)'} (ran {checks})")
+            rows.append((name, f, checks, 'FALSE ALARM ' + ' '.join(alarms) if alarms else 'silent, as required (behaviour-preserving variant)'))
         finally:
             sh('git -C /repo checkout -- .')
         sys.stdout.flush()
